@@ -268,6 +268,7 @@ def step (_ : Unit) (line : String) : Unit × String :=
   | "wf0" :: rest => ((), Shuffle.wfStep rest)
   | "ivm" :: rest => ((), Driver.C06I.ivmStep rest)
   | "moniv" :: rest => ((), Driver.C06I.monStep rest)
+  | "monivx" :: rest => ((), Driver.C06I.monIvx rest)
   | _ => ((), "bad-op")
 
 def main : IO Unit := do
